@@ -52,6 +52,34 @@ def xarrayMask (w : Window) (ts : List Int) : List Bool :=
   let keep := (List.range ts.length).filter fun i => inWindow w (ts.getD i 0)
   (List.range ts.length).map fun i => keep.contains i
 
+
+/-! ### Rows without a usable timestamp (NaT)
+
+A row whose time is NaT satisfies no comparison: it belongs to every context that has no
+window at all (nothing is subset then) and to no context that has a bound. -/
+
+def inWindowOpt (w : Window) (t : Option Int) : Bool :=
+  match t with
+  | some t => inWindow w t
+  | none => w.starting.isNone && w.ending.isNone
+
+def specMaskOpt (w : Window) (ts : List (Option Int)) : List Bool := ts.map (inWindowOpt w)
+
+/-- `t >= a` / `t < b` on a datetime column: False at NaT. -/
+def geOpt (a : Int) (t : Option Int) : Bool := match t with | some t => decide (a ≤ t) | none => false
+def ltOpt (b : Int) (t : Option Int) : Bool := match t with | some t => decide (t < b) | none => false
+
+/-- The NumpyStream mechanism (`ones & (t >= starting) & (t < ending)`) on a column with NaT;
+    PandasStream's two `.loc` filters and XarrayStream's `in_window &= …` compare alike. -/
+def numpyMaskOpt (w : Window) (ts : List (Option Int)) : List Bool :=
+  let m0 := ts.map fun _ => true
+  let m1 := match w.starting with
+    | some a => List.zipWith (fun m t => m && geOpt a t) m0 ts
+    | none => m0
+  match w.ending with
+  | some b => List.zipWith (fun m t => m && ltOpt b t) m1 ts
+  | none => m1
+
 /-- Rows of a column selected by a mask (`arr[mask]`). -/
 def selectRows {α : Type} (mask : List Bool) (xs : List α) : List α :=
   (List.zip mask xs).filterMap fun p => if p.1 then some p.2 else none
